@@ -326,13 +326,17 @@ impl Quat {
         if dot > ONE_MINUS_EPS {
             // 0° singularity: from ≈ to
             Self::IDENTITY
-        } else if dot < -ONE_MINUS_EPS {
-            // 180° singularity: from ≈ -to
-            use core::f32::consts::PI; // half a turn = 𝛕/2 = 180°
-            Self::from_axis_angle(from.any_orthonormal_vector(), PI)
         } else {
             let c = from.cross(to);
-            Self::from_xyzw(c.x, c.y, c.z, 1.0 + dot).normalize()
+            // 180° singularity: from ≈ -to. Decided by the sine (the cross product): `1 + dot` also
+            // carries the rounding of the lengths of the inputs, so for opposite vectors it can stay
+            // above the threshold while the axis `c` vanishes.
+            if dot < 0.0 && c.length_squared() < 4.0 * f32::EPSILON {
+                use core::f32::consts::PI; // half a turn = 𝛕/2 = 180°
+                Self::from_axis_angle(from.any_orthonormal_vector(), PI)
+            } else {
+                Self::from_xyzw(c.x, c.y, c.z, 1.0 + dot).normalize()
+            }
         }
     }
 
@@ -382,19 +386,21 @@ impl Quat {
         if dot > ONE_MINUS_EPSILON {
             // 0° singularity: from ≈ to
             Self::IDENTITY
-        } else if dot < -ONE_MINUS_EPSILON {
-            // 180° singularity: from ≈ -to
-            const COS_FRAC_PI_2: f32 = 0.0;
-            const SIN_FRAC_PI_2: f32 = 1.0;
-            // rotation around z by PI radians
-            Self::from_xyzw(0.0, 0.0, SIN_FRAC_PI_2, COS_FRAC_PI_2)
         } else {
             // vector3 cross where z=0
             let z = from.x * to.y - to.x * from.y;
-            let w = 1.0 + dot;
-            // calculate length with x=0 and y=0 to normalize
-            let len_rcp = 1.0 / math::sqrt(z * z + w * w);
-            Self::from_xyzw(0.0, 0.0, z * len_rcp, w * len_rcp)
+            // 180° singularity: from ≈ -to, decided by the sine (see `from_rotation_arc`)
+            if dot < 0.0 && z * z < 4.0 * f32::EPSILON {
+                const COS_FRAC_PI_2: f32 = 0.0;
+                const SIN_FRAC_PI_2: f32 = 1.0;
+                // rotation around z by PI radians
+                Self::from_xyzw(0.0, 0.0, SIN_FRAC_PI_2, COS_FRAC_PI_2)
+            } else {
+                let w = 1.0 + dot;
+                // calculate length with x=0 and y=0 to normalize
+                let len_rcp = 1.0 / math::sqrt(z * z + w * w);
+                Self::from_xyzw(0.0, 0.0, z * len_rcp, w * len_rcp)
+            }
         }
     }
 
